@@ -52,7 +52,7 @@ ANCHORS = ["glue.core.state:VersionedDict.__setitem__", "glue.core.state:Version
            "glue.core.state:_load_data_collection_4", "glue.core.state:_save_data_3", "glue.core.state:_save_data_4",
            "glue.core.state:_save_data_collection", "glue.core.state:_save_data_collection_4"]
 
-BLOCK = 6
+BLOCK = 8
 N_ROUNDS = {"quick": 30, "thorough": 160}       # blocks per (dv, cv) pair
 N_NEWEST = {"quick": 30, "thorough": 80}
 N_TYPES = {"quick": 4, "thorough": 40}
@@ -212,6 +212,10 @@ def run_pinned(ctx, ses, dv, cv, skip, pins=None):
     if desc["links"]:
         ctx.count("sessions_compared_with_links:" + tag)
         ctx.count("external_link_table_rows_compared:" + tag, len(obs0["link_table"]))
+    if any(l["kind"] == "ComponentLink_mixed" for l in desc["links"]):
+        ctx.count("sessions_compared_with_mixed_input_link:" + tag)
+    if any("coordinate_components_out_of_axis_order" in d.get("variants", []) for d in desc["data"]):
+        ctx.count("sessions_compared_with_reordered_coordinates:" + tag)
     if desc["links"] and all(d["coords"] not in (None, "wcs") and "function" in d["derived"].values() for d in desc["data"]):
         ctx.count("sessions_compared_with_coords_internal_and_external_links:" + tag)
     ctx.evaluation(fp, nontrivial)
@@ -249,6 +253,12 @@ def run_case(ctx, case):
                 o["want_join"] = ctx.rng.choice(L.JOIN_SHAPES)      # make sure every pair sees key joins
             elif b == 2 and dv >= 3 and cv >= 4:
                 o["history"] = "remove_last"     # dataset removed before saving, still reachable through a key join
+            elif b == 6:
+                # a two-input link with one input in the output's own dataset and one foreign: stays external
+                o["want_link"] = "ComponentLink_mixed"
+                o["n_data"] = ctx.rng.choice([2, 3])
+            elif b == 7:
+                o["special"] = "coords_reordered"
             elif b == 4:
                 o["special"] = "parsed_same_label"
             elif b == 5 and dv >= 4:
@@ -310,6 +320,8 @@ def types_case(ctx):
     S, U = GlueSerializer.dispatch._data, GlueUnSerializer.dispatch._data
     for typ, versions in S.items():
         name = tname(typ)
+        if name.startswith(("VfProbe", "_HarnessPrivate")):
+            continue
         recipes = T.RECIPES.get(name)
         for v in sorted(versions):
             key = "%s@%d" % (name, v)
@@ -382,6 +394,8 @@ def registry_case(ctx):
     S, U = GlueSerializer.dispatch._data, GlueUnSerializer.dispatch._data
     for table, side in ((S, "saver"), (U, "loader")):
         for typ, versions in table.items():
+            if tname(typ).startswith(("VfProbe", "_HarnessPrivate")):
+                continue
             ctx.count("registry:%s_types" % side)
             vs = sorted(versions)
             ctx.count("registry:%s_versions" % side, len(vs))
@@ -451,7 +465,82 @@ def registry_case(ctx):
             except (KeyError, ValueError):
                 continue
             ctx.violation({"what": "live_table_accepts", "probe": name, "side": side}, {})
+    live_newest_probe(ctx)
     rename_table_case(ctx)
+
+
+_PROBE_N = [0]
+
+
+def live_newest_probe(ctx):
+    """'A save always uses the newest', live: throw-away classes Base and Sub(Base); v1 registered for Base, a Sub
+    saved (dispatch falls through the MRO), then v2 registered for Base: a Sub and a Base saved afterwards must both
+    carry _protocol 2 and load through the v2 loader, while the earlier v1 text still loads through the v1 loader."""
+    import json
+    import sys
+    mod = sys.modules[__name__]
+    _PROBE_N[0] += 1
+    n = _PROBE_N[0]
+    Base = type("VfProbeBase%d" % n, (object,), {"__module__": __name__})
+    Sub = type("VfProbeSub%d" % n, (Base,), {"__module__": __name__})
+    Other = type("VfProbeOther%d" % n, (Sub,), {"__module__": __name__})
+    for c in (Base, Sub, Other):
+        setattr(mod, c.__name__, c)
+
+    def mk_saver(v):
+        return lambda obj, context: {"payload": getattr(obj, "payload", None), "written_by": v}
+
+    def mk_loader(v):
+        def load(rec, context):
+            cls = lookup_class_with_patches(rec["_type"])
+            o = cls()
+            o.payload, o.loaded_by, o.written_by = rec["payload"], v, rec["written_by"]
+            return o
+        return load
+
+    def trip(obj, want_v, stage):
+        obj.payload = 41 + want_v
+        ctx.evaluation(["live_newest", stage, type(obj).__name__[:10]], True)
+        ctx.count("live_newest_probe:saves_checked")
+        try:
+            text = GlueSerializer(obj).dumps()
+            rec = json.loads(text)["__main__"]
+            got = rec.get("_protocol", 1)
+            if got != want_v or rec.get("written_by") != want_v:
+                ctx.violation({"what": "save_does_not_use_newest", "stage": stage, "via_mro": type(obj).__name__.startswith("VfProbeSub")
+                               or type(obj).__name__.startswith("VfProbeOther")},
+                              {"wanted": want_v, "protocol": got, "written_by": rec.get("written_by")})
+            back = GlueUnSerializer.loads(text).object("__main__")
+            if type(back) is not type(obj) or back.payload != obj.payload or back.loaded_by != got:
+                ctx.violation({"what": "live_probe_load_differs", "stage": stage},
+                              {"loaded_by": getattr(back, "loaded_by", None), "protocol": got})
+            return text
+        except Exception as exc:
+            ctx.violation({"what": "live_probe_raises", "stage": stage, "exc": type(exc).__name__}, {"error": repr(exc)[:200]})
+            return None
+
+    GlueSerializer.dispatch[(Base, 1)] = mk_saver(1)
+    GlueUnSerializer.dispatch[(Base, 1)] = mk_loader(1)
+    old_sub = trip(Sub(), 1, "v1_only")          # primes any per-concrete-type cache for Sub
+    trip(Base(), 1, "v1_only")
+    GlueSerializer.dispatch[(Base, 2)] = mk_saver(2)
+    GlueUnSerializer.dispatch[(Base, 2)] = mk_loader(2)
+    trip(Sub(), 2, "after_v2")
+    trip(Base(), 2, "after_v2")
+    trip(Other(), 2, "after_v2")
+    GlueSerializer.dispatch[(Base, 3)] = mk_saver(3)
+    GlueUnSerializer.dispatch[(Base, 3)] = mk_loader(3)
+    trip(Other(), 3, "after_v3")
+    trip(Sub(), 3, "after_v3")
+    if old_sub is not None:
+        # the text written in v1 format still loads, through the v1 loader
+        ctx.count("live_newest_probe:old_text_reloaded")
+        try:
+            back = GlueUnSerializer.loads(old_sub).object("__main__")
+            if back.loaded_by != 1:
+                ctx.violation({"what": "old_record_loaded_by_wrong_version", "stage": "after_v3"}, {"loaded_by": back.loaded_by})
+        except Exception as exc:
+            ctx.violation({"what": "live_probe_raises", "stage": "reload_v1_text", "exc": type(exc).__name__}, {"error": repr(exc)[:200]})
 
 
 def rename_resolver_case(ctx):
@@ -606,6 +695,8 @@ def floors(counters, tier):
         if counters.get("sessions_compared_with_coords_internal_and_external_links:" + tag, 0) < 1:
             out.append("version pair %s: no compared session with world coordinates, an internal function link and an "
                        "external link together" % tag)
+        if counters.get("sessions_compared_with_mixed_input_link:" + tag, 0) < 1:
+            out.append("version pair %s: no compared session with a mixed-input cross-dataset link" % tag)
         if dv >= 3 and counters.get("sessions_compared_with_key_join:" + tag, 0) < 1:
             out.append("version pair %s: no compared session with a key join" % tag)
     # per-type family: every registered saver version is either exercised by a recipe or listed as without recipe
@@ -618,6 +709,8 @@ def floors(counters, tier):
                 out.append("registered saver %s has no per-type recipe exercising it" % key)
     if counters.get("type_family:trips_compared", 0) < 30:
         out.append("fewer than 30 per-type round trips compared")
+    if counters.get("live_newest_probe:saves_checked", 0) < 7:
+        out.append("the live 'a save uses the newest version' probe did not run")
     if counters.get("rename_resolver:chains_checked", 0) < 10:
         out.append("the rename resolver was not exercised on chains listed in either order")
     if counters.get("sessions_compared:mixed", 0) < 8:
